@@ -172,7 +172,15 @@ def find_calls(root, names=None, methods=None):
 def ctor_sites(root, path_suffix):
     """Struct-literal and tuple-call constructor sites of a type/variant path ending in suffix."""
     segs = path_suffix.split("::")
+    funcs = set()
     for n in A.walk(root):
+        if n["k"] == "Call":
+            funcs.add(id(n["func"]))
+    for n in A.walk(root):
+        if n["k"] == "Path" and id(n) not in funcs:
+            ps = n["path"].split("::")
+            if len(ps) >= len(segs) and ps[-len(segs):] == segs and len(segs) >= 2:
+                yield n  # unit variant / unit struct used as a value
         if n["k"] == "Struct":
             ps = n["path"].split("::")
             if ps[-len(segs):] == segs or (len(segs) == 2 and ps[-1] == segs[-1] and ps[-2] == "Self"):
